@@ -4,8 +4,8 @@ package hub
 
 import (
 	"crypto/tls"
-	"net/http"
 	"crypto/x509"
+	"net/http"
 
 	"github.com/enbility/ship-go/api"
 	"github.com/enbility/ship-go/model"
